@@ -762,11 +762,10 @@ impl<T: GseDecapMemory, C: CrcCalculator, MHEM: MandatoryHeaderExtensionManager>
             Err(err) => return Err((DecapError::ErrorMemory(err), pkt_len)),
         };
 
-        let pdu_buffer = &mut pdu[decap_context.pdu_len as usize..];
+        // a context that claims more bytes than its storage holds leaves no room
+        let pdu_buffer_len = pdu.len().checked_sub(decap_context.pdu_len as usize);
 
-        let pdu_buffer_len = pdu_buffer.len();
-
-        if pdu_buffer_len < calculed_pdu_len {
+        if pdu_buffer_len.map_or(true, |len| len < calculed_pdu_len) {
             return match self.memory.provision_storage(pdu) {
                 Ok(()) => Err((DecapError::ErrorSizePduBuffer, pkt_len)),
                 // the memory refuses the buffer: hand it to the caller
@@ -782,6 +781,7 @@ impl<T: GseDecapMemory, C: CrcCalculator, MHEM: MandatoryHeaderExtensionManager>
                 Err(err) => Err((DecapError::ErrorMemory(err), pkt_len)),
             };
         }
+        let pdu_buffer = &mut pdu[decap_context.pdu_len as usize..];
         pdu_buffer[..calculed_pdu_len].copy_from_slice(&buffer[offset..offset + calculed_pdu_len]);
 
         // save state
@@ -824,11 +824,10 @@ impl<T: GseDecapMemory, C: CrcCalculator, MHEM: MandatoryHeaderExtensionManager>
             Err(err) => return Err((DecapError::ErrorMemory(err), pkt_len)),
         };
 
-        let pdu_buffer = &mut pdu[decap_context.pdu_len as usize..];
+        // a context that claims more bytes than its storage holds leaves no room
+        let pdu_buffer_len = pdu.len().checked_sub(decap_context.pdu_len as usize);
 
-        let pdu_buffer_len = pdu_buffer.len();
-
-        if pdu_buffer_len < calculed_pdu_len {
+        if pdu_buffer_len.map_or(true, |len| len < calculed_pdu_len) {
             return match self.memory.provision_storage(pdu) {
                 Ok(()) => Err((DecapError::ErrorSizePduBuffer, pkt_len)),
                 // the memory refuses the buffer: hand it to the caller
@@ -836,6 +835,7 @@ impl<T: GseDecapMemory, C: CrcCalculator, MHEM: MandatoryHeaderExtensionManager>
             };
         }
 
+        let pdu_buffer = &mut pdu[decap_context.pdu_len as usize..];
         pdu_buffer[..calculed_pdu_len].copy_from_slice(&buffer[offset..offset + calculed_pdu_len]);
         offset += calculed_pdu_len;
 
